@@ -153,6 +153,15 @@ class Interp:
             if isinstance(tgt, ast.Subscript):
                 base = self.eval(tgt.value)
                 self.del_item(base, tgt.slice, tgt)
+            elif isinstance(tgt, ast.Attribute):
+                # del obj.attr on a record in a heap cell: the field is gone
+                obj = self.eval(tgt.value)
+                o = self.ctx.deref(obj)
+                if not (isinstance(obj, VRef) and isinstance(o, VObj) and tgt.attr in o.fields):
+                    self.unsupported(s, "del of attribute %s" % tgt.attr)
+                nf = dict(o.fields)
+                del nf[tgt.attr]
+                self.ctx.store(obj, VObj(o.ty, nf))
             else:
                 self.unsupported(s, "del of non-subscript")
 
